@@ -35,7 +35,8 @@ SectorOf(S) == {D \in SUBSET ActModes(S) : Cardinality({m \in D : m % 2 = 0}) = 
 \* a deterministic choice of at most MaxDets determinants of the sector
 RECURSIVE TakeN(_, _)
 TakeN(T, k) == IF k = 0 \/ T = {} THEN {} ELSE LET x == CHOOSE y \in T : TRUE IN {x} \cup TakeN(T \ {x}, k - 1)
-SupportOf(S) == TakeN(SectorOf(S), MaxDets)
+\* (a shape may lower the support size: maxd; keeps the large high-spin shapes cheap)
+SupportOf(S) == TakeN(SectorOf(S), IF S.maxd < MaxDets THEN S.maxd ELSE MaxDets)
 
 Init == /\ sh \in 1..Len(Shapes)
         /\ amp \in {f \in [SupportOf(Shapes[sh]) -> Amps] : \E D \in SupportOf(Shapes[sh]) : f[D] # 0}
